@@ -5,7 +5,18 @@ D = os.path.join(ROOT, 'docs', 'design')
 def rd(n):
     p = os.path.join(D, n)
     return open(p).read().rstrip() + '\n\n' if os.path.exists(p) else ''
-out = rd('00_head.md') + rd('20_levels.md') + rd('30_architecture.md') + rd('40_reach.md') + rd('50_deciding.md') + rd('60_policy.md')
+kf = json.load(open(os.path.join(ROOT, 'known_findings.json')))
+import re as _re
+tab = '**Repaired (one `fix:` commit each):**\n\n| property | commit | what failed |\n|---|---|---|\n'
+for line in kf.get('fixed', []):
+    m = _re.match(r'fixed: property=(\S+) (\S+) (.*)', line)
+    if m:
+        tab += '| %s | %s | %s |\n' % (m.group(1), m.group(2), m.group(3).replace('|', '\\|'))
+tab += '\n**Open known findings (suppressed only when the executable signature matches):**\n\n| property | id | what | replay |\n|---|---|---|---|\n'
+for f in kf.get('findings', []):
+    tab += '| %s | %s | %s | %s |\n' % (f['property'], f['id'], f['what'].replace('|', '\\|')[:600], f.get('example_replay', ''))
+head = rd('00_head.md').replace('@@DEFECT_TABLES@@', tab).replace('@@NFIXED@@', str(len(kf.get('fixed', [])))).replace('@@NOPEN@@', str(len(kf.get('findings', []))))
+out = head + rd('20_levels.md') + rd('30_architecture.md') + rd('40_reach.md') + rd('50_deciding.md') + rd('60_policy.md')
 out += '## 7. Properties (as built)\n\n' + rd('70_intro.md')
 props = [json.loads(l) for l in open(os.path.join(ROOT, 'properties.jsonl'))]
 order = ['C10', 'C11', 'C13', 'C12', 'C14', 'C15', 'C16', 'C17', 'C18', 'C19', 'C20', 'C06', 'C07', 'C01', 'C02', 'C03', 'C04', 'C05', 'C08', 'C09']
